@@ -164,52 +164,104 @@ def run(tier, seed):
     from ..parallel import supervised
     from ..probes import scratch
 
-    def forward_job(inter, xr, rz, v, n, gseed):
+    def forward_job(inter, xr, rz, vel, gseed):
         np.random.seed(gseed)
         obj = LayeredRayTracing2D(inter, np.array([xr]), rz)
         obj.parallel = False
-        tts = np.array(obj.forward(np.ones(n) * v), dtype=float)
-        return tts, np.array(obj.solved_angles, dtype=float), float(obj.tolerance)
+        tts = np.array(obj.forward(np.array(vel, dtype=float)), dtype=float)
+        angles = np.array(obj.solved_angles, dtype=float)
+        # every receiver reported as converged is served by a ray: trace the ray of the reported take-off angle again
+        rays = []
+        for i, a in enumerate(angles):
+            if np.isnan(a):
+                rays.append(None)
+                continue
+            ray, tt, dist = M._tracerays(inter, np.array(vel, dtype=float), np.array([0, 0]), xr, rz, a, maxnumiterations=len(inter) * 3, keep_upgoing=False)
+            rays.append((float(ray[-1][0]), float(ray[-1][1]), None if tt is None else float(tt)))
+        return tts, angles, float(obj.tolerance), rays
 
     with scratch() as tmp:
-        for _ in range(30 if thorough else 8):
+        for ci in range(36 if thorough else 10):
             n = rnd.choice([1, 2, 3, 4, 6])
             thick = [rnd.choice([100.0, 150.0, 250.0]) for _ in range(n)]
             inter = np.cumsum(thick)
             v = rnd.choice([1500.0, 2000.0, 3300.0])
-            xr = rnd.choice([100.0, 200.0, 350.0])
+            # homogeneous (the clause about straight lines), or - every third case - layered with velocities increasing with depth (rays that turn at an interface exist)
+            layered = n >= 2 and ci % 3 == 2
+            vel = (np.cumsum([v] + [rnd.choice([0.0, 300.0, 900.0]) for _ in range(n - 1)]) if layered else np.ones(n) * v)
+            xr = rnd.choice([100.0, 200.0, 350.0, 350.0, 1500.0, 3000.0])
             nrec = rnd.choice([1, 3, 5, 8])
             # receivers anywhere above the last interface (the constructor's own condition), the deepest layer included; in any order
             rz = np.linspace(0.15 * inter[-1], 0.95 * inter[-1], nrec) if nrec > 1 else np.array([rnd.uniform(0.3, 0.9) * inter[-1]])
+            special = "none"
+            if nrec >= 3 and rnd.random() < 0.4:
+                # receivers at delicate depths: just below the surface (nearer to it than the tolerance), or exactly on an interface
+                special = rnd.choice(["near-surface", "on-interface"] if n >= 2 else ["near-surface"])
+                if special == "near-surface":
+                    rz[0] = rnd.choice([1.0, 2.0, 0.02 * (rz[1] - rz[0])])
+                else:
+                    rz[rnd.randrange(nrec)] = float(inter[rnd.randrange(n - 1)])
+                    rz = np.unique(rz)
+                    nrec = len(rz)
             order = rnd.choice(["shallowest first", "shallowest first", "deepest first", "shuffled"]) if nrec > 1 else "single"
             if order == "deepest first":
                 rz = rz[::-1].copy()
             elif order == "shuffled":
                 rz = np.array(rnd.sample(rz.tolist(), nrec))
-            stim = {"interfaces": inter.tolist(), "velocity": v, "xr": xr, "receivers": rz.tolist(), "order": order}
+            if ci < 2:
+                # corpus (runs first): the two geometries on which a look-up table that also admits rays which stop short of the receiver line showed
+                # (a receiver on the interface at which trial rays turn; a receiver 2 m below the surface at 3000 m offset)
+                if ci == 0:
+                    inter, vel, xr = np.array([100.0, 250.0, 400.0, 700.0]), np.array([1000.0, 1500.0, 2500.0, 3000.0]), 500.0
+                    rz, layered, special = np.array([50.0, 150.0, 250.0, 350.0, 450.0, 550.0, 650.0]), True, "on-interface"
+                else:
+                    inter, vel, xr = np.array([300.0, 600.0, 1000.0]), np.ones(3) * 2000.0, 3000.0
+                    rz, layered, special = np.array([2.0, 100.0, 200.0, 300.0, 400.0, 500.0, 600.0, 700.0, 800.0, 900.0]), False, "near-surface"
+                n, nrec, v, order = len(inter), len(rz), float(vel[0]), "shallowest first"
+            stim = {"interfaces": inter.tolist(), "velocities": np.asarray(vel).tolist(), "xr": xr, "receivers": rz.tolist(), "order": order, "special_receiver": special}
             sf.case(stim, nontrivial=n >= 3, sample=stim if len(sf.samples) < 2 else None)
             sf.count(f"receivers {order}")
+            sf.count("layered" if layered else "homogeneous")
+            sf.count(f"special receiver: {special}")
             sf.count("receivers in the deepest layer" if (n == 1 or np.any(rz > inter[-2])) else "receivers above the deepest layer")
-            status, res = supervised(forward_job, (inter, xr, rz, v, n, rnd.randrange(1 << 30)), timeout=120, tmpdir=tmp)
+            status, res = supervised(forward_job, (inter, xr, rz, np.asarray(vel).tolist(), rnd.randrange(1 << 30)), timeout=120, tmpdir=tmp)
             if status != "ok":
+                if status == "timeout" and (special != "none" or xr > 350.0):
+                    # the angle search is not claimed to terminate for every geometry (DESIGN 9.6); delicate depths and long offsets are here for what is *returned*
+                    sf.indeterminate += 1
+                    sf.count("did not return within 120 s (delicate geometry: not claimed)")
+                    continue
                 what = "did not return within 120 s" if status == "timeout" else f"raised {str(res)[:200]}"
                 sf.disagree(stim, "forward() runs", what, "forward() on the installed NumPy")
-                findings.append(Finding("C18", f"LayeredRayTracing2D.forward {what} (homogeneous medium, {n} layers, receivers {order})",
+                findings.append(Finding("C18", f"LayeredRayTracing2D.forward {what} ({'layered' if layered else 'homogeneous'} medium, {n} layers, receivers {order})",
                                         {"kind": "forward-raise", "exception": status if status == "timeout" else str(res).split("(")[0][:30]},
                                         {"oracle": "forward", "stimulus": stim, "exception": str(res)[:600]}))
                 continue
-            tts, angles, tol = res
-            straight = np.sqrt(xr ** 2 + rz ** 2) / v
+            tts, angles, tol, rays = res
             conv = ~np.isnan(angles)
             sf.count(f"converged={int(conv.sum())}/{nrec}")
-            bad = [i for i in range(nrec) if conv[i] and not abs(tts[i] - straight[i]) <= abs(tol) / v * (1 + 1e-9)]
+            problems = []
             if not (tol > 0):
-                bad = bad or [0]
-            if bad:
-                i = bad[0]
-                sf.disagree(stim, float(straight[i]), float(tts[i]), f"receiver {i}: travel time off by more than tolerance/velocity")
-                findings.append(Finding("C18", f"homogeneous medium: converged receiver {i} (depth {float(rz[i])!r}) has travel time {float(tts[i])!r}, straight line {float(straight[i])!r}, tolerance/v {tol / v!r}",
-                                        {"kind": "forward-bound"}, {"oracle": "forward", "stimulus": stim}))
+                problems.append(f"the tolerance the object derived for itself is {tol!r}")
+            for i in range(nrec):
+                if not conv[i]:
+                    continue
+                ex, ez, ett = rays[i]
+                if ex != xr or not abs(ez - rz[i]) < abs(tol) * (1 + 1e-9):
+                    problems.append(f"receiver {i} (depth {float(rz[i])!r}) is reported as converged with take-off angle {float(angles[i])!r}, but that ray ends at "
+                                    f"(x={ex!r}, z={ez!r}): not on the receiver line x={xr!r} within the tolerance {tol!r} of the receiver")
+                    break
+                if ett is None or not common.close(ett, float(tts[i]), 1e-9, 1e-15):
+                    problems.append(f"receiver {i}: reported travel time {float(tts[i])!r} is not the travel time {ett!r} of the ray with the reported take-off angle")
+                    break
+                if not layered:
+                    straight = math.sqrt(xr ** 2 + rz[i] ** 2) / v
+                    if not abs(tts[i] - straight) <= abs(tol) / v * (1 + 1e-9):
+                        problems.append(f"homogeneous medium: converged receiver {i} (depth {float(rz[i])!r}) has travel time {float(tts[i])!r}, straight line {straight!r}, tolerance/v {tol / v!r}")
+                        break
+            if problems:
+                sf.disagree(stim, "converged receivers served by their rays", problems[0], "forward()")
+                findings.append(Finding("C18", problems[0][:400], {"kind": "forward-bound"}, {"oracle": "forward", "stimulus": stim, "problems": problems}))
     return [st, sf], findings
 
 
